@@ -658,18 +658,37 @@ Fixpoint uniq_keys {A} (l : list (ustring * A)) : bool :=
   | (k, _) :: r => negb (has_key k r) && uniq_keys r
   end.
 
-Fixpoint obj_frag (tx : itype) (s : schema) : bool :=
+Definition all_array (ty : option (list itype)) : bool :=
+  match ty with
+  | Some (t :: l) => forallb (itype_eqb TArray) (t :: l)
+  | _ => false
+  end.
+
+(* the array keyword group of a fragment schema.  [wa] = "with arrays": when false no array keyword may occur;
+   when true: `items` absent or a SINGLE schema, minItems / maxItems / uniqueItems, no additionalItems, and the
+   group is guarded by "type":"array" (tuples: see findings F5/F7 and notes/C09.md) *)
+Definition arr_cond (wa : bool) (ty : option (list itype)) (ik : items_kind) (items : list schema)
+           (ai : option schema) (mni mxi : option N) (uq : bool) : bool :=
+  is_none ai
+  && match ik, items with
+     | ItemsAbsent, [] => true
+     | ItemsSingle, [_] => wa
+     | _, _ => false
+     end
+  && (arr_absent ik ai mni mxi uq || (wa && all_array ty)).
+
+Fixpoint obj_frag (wa : bool) (tx : itype) (s : schema) : bool :=
   match s with
   | SBool _ => true
   | SObj ty fmt enum cst nv sv ik items ai mni mxi uq props req ap mnp mxp allo anyo oneo no ref _ _ =>
       notype tx ty && is_none fmt && simple_enum enum && opt_all simple_json cst
       && numv_is_none nv && strv_is_none sv
-      && arr_absent ik ai mni mxi uq && match items with [] => true | _ => false end
+      && arr_cond wa ty ik items ai mni mxi uq && forallb (obj_frag wa tx) items
       && is_none anyo && is_none oneo && is_none no && is_none ref
       && (obj_absent props req ap mnp mxp || all_object ty)
       && uniq_keys props
-      && forallb (fun kv => obj_frag tx (snd kv)) props && opt_all (obj_frag tx) ap
-      && opt_all (forallb (obj_frag tx)) allo
+      && forallb (fun kv => obj_frag wa tx (snd kv)) props && opt_all (obj_frag wa tx) ap
+      && opt_all (forallb (obj_frag wa tx)) allo
   end.
 
 (* JSON instances as serde_json produces them: object keys are unique (Spec/Valid.v assumes it too) *)
@@ -684,6 +703,10 @@ Fixpoint wf_json (v : json) : bool :=
          end) kvs
   | _ => true
   end.
+
+(* the instances of the theorems: well formed, and — when arrays are in the fragment — without an empty array
+   anywhere (finding C09-F5: two `items` schemas that do not merge make the array schema never, although the
+   empty array satisfies both; [no_empty_arr] is defined below) *)
 
 (* decidable exclusion class of finding C09-F1 for a pair: `integer` and `number` both occur *)
 Fixpoint uses_type (t : itype) (s : schema) : bool :=
@@ -709,6 +732,8 @@ Fixpoint no_empty_arr (v : json) : bool :=
   | JObj kvs => forallb (fun kv => no_empty_arr (snd kv)) kvs
   | _ => true
   end.
+
+Definition inst_ok (wa : bool) (v : json) : bool := wf_json v && (negb wa || no_empty_arr v).
 
 (* ------------------------------------------------------------------ printing (K1) *)
 Open Scope string_scope.
